@@ -378,6 +378,16 @@ RAW_UNITS = [
     # 6.2.2p4: nothing to inherit): accepted, external references
     ('typedef int handler; enum { limit = 3 }; int f(void) { extern int limit; int handler(int); return limit + handler(1); }\nint g(void) { handler h = limit; return h; }\n', {}),
     ('static int s; _Thread_local int *c = &s; static _Thread_local int t; extern _Thread_local int t;\nint f(void) { extern _Thread_local int t; return *c + t; }\n', {'c': (8, True), 's': (4, False), 't': (4, False)}),
+    # an asm label belongs to its own declarator only
+    ('int first __asm__("renamed_first"), second; extern int ea __asm__("x_ea"), eb; static int helper(void) __asm__("h_lp"), other(void);\n'
+     'static int helper(void) { return 1; } static int other(void) { return 2; }\nint use(void) { return first + second + ea + eb + helper() + other(); }\n',
+     {'second': (4, True)}, 'raw-unit', {'funcs': ['other', 'use'], 'refs': ['eb', 'second']}),
+    # objects of size zero (GNU zero-length arrays) are defined all the same
+    ('int marker_begin[0]; static int local_mark[0]; int marker_end[0] = { };\nlong f(void) { static long pad[0]; return (long)marker_begin + (long)local_mark + (long)pad + (long)marker_end; }\n',
+     {'marker_begin': (0, True), 'local_mark': (0, False), 'marker_end': (0, True)}),
+    # _Thread_local written before static / extern
+    ('_Thread_local static int x; _Thread_local extern int y; _Thread_local int w = 2;\nint f(void) { _Thread_local static int z; return x + y + z + w; }\n',
+     {'x': (4, False), 'w': (4, True)}, 'raw-unit', {'thread': ['x', 'y', 'w']}),
     # known finding: __func__ used only as an address constant of a static initialiser is referenced but never defined
     ('int f(void) { static const char *p = __func__; return p[0]; }\n', {}, 'func-name-address-constant-undefined'),
 ]
@@ -889,6 +899,19 @@ def run(ctx):
                          for t, rest in re.findall(r'([bhwlsdz]) ([^,]*),?', body))
                 if sz != size or bool(got[0][0]) != exported:
                     problems.append('%s: %d bytes%s, expected %d bytes%s' % (nm, sz, ' exported' if got[0][0] else '', size, ' exported' if exported else ''))
+            extra = ru[3] if len(ru) > 3 else {}
+            for fn in extra.get('funcs', []):
+                if funs.count(fn) != 1:
+                    problems.append('function %s: %d definitions' % (fn, funs.count(fn)))
+            for rf in extra.get('refs', []):
+                if rf not in refs:
+                    problems.append('%s is never referenced by its own name' % rf)
+            for nm in extra.get('thread', []):
+                for ln in out.split('\n'):
+                    if re.search(r'\$' + nm + r'\b', ln) and not re.search(r'thread \$' + nm + r'\b', ln) and not re.match(r'^(export )?thread (export )?data \$' + nm + r' ', ln) \
+                            and not re.match(r'^thread (export )?data \$' + nm + r' ', ln):
+                        problems.append('thread-local %s is defined or accessed without the thread keyword: %s' % (nm, ln.strip()[:80]))
+                        break
             if problems:
                 ctx.violation('hand-written linkage unit: ' + '; '.join(problems), src, 'c', key=rkey)
         for src in RAW_REJECT:
